@@ -109,6 +109,11 @@ Definition c10_big_call_violations (rs : list c10_big_run) : list nat :=
 Definition c10_trial_ok (codes : list N) : bool := forallb (fun c => c <=? 1) codes.
 Definition c10_trial_violations (ts : list (list N)) : list nat := indices_where (fun t => negb (c10_trial_ok t)) ts.
 
+(* two live connections of one RetryClient session receiving QoS 2 traffic at the same time:
+   how often each message was handed to the handler *)
+Definition c10_handover_violations (counts : list (list N)) : list nat :=
+  indices_where (fun cs : list N => negb (forallb (fun c => c =? 1) cs)) counts.
+
 (* overlap probes: a writer is held inside Transport.Write while another packet becomes due;
    observed: the largest number of goroutines inside Write at the same time, and the wire *)
 Definition c10_probe := (nat * c10_run)%type.
@@ -191,6 +196,15 @@ Definition c10_discipline_ok (tbl : list access) : bool := discipline_ok c10_exe
 Definition c10_pair_violations (tbl : list access) (pairs : list (nat * nat)) : list nat := bad_pairs c10_exempt tbl pairs.
 Definition c10_decision_mismatch (tbl : list access) (pairs : list (nat * nat)) : list nat :=
   decision_mismatch c10_exempt tbl pairs.
+
+(* A map / slice / pointer-to-lockless held in a field of one lock-owning struct and stored into a
+   field of another lock-owning object is then protected by two different lock OBJECTS, although
+   the table — which names locks by struct and field — shows "mu" on both sides. The translator
+   lists every such hand-over (from, to); none is allowed unless declared here. *)
+Definition c10_share_allowed : list (string * string) := [].
+Definition c10_share_ok (ft : string * string) : bool :=
+  existsb (fun a => String.eqb (fst a) (fst ft) && String.eqb (snd a) (snd ft)) c10_share_allowed.
+Definition c10_share_violations (l : list (string * string)) : list nat := indices_where (fun ft => negb (c10_share_ok ft)) l.
 
 (* the table must cover the code the property is anchored in: a translator that silently stops
    seeing write(), the signaller or the task goroutine would make the decision vacuous *)
